@@ -203,4 +203,13 @@ def AlKeptOrMoved (h : Heap) (a a' : AlA) (h' : Heap) : Prop :=
 /-- a table as json_object keeps it: not over-full, small enough for the doubling to stay an int -/
 def LhOK (t : LhA) : Prop := 0 < t.size ∧ t.count ≤ t.size ∧ t.size ≤ intMax / 2
 
+/-- what a successful insertion of a new member leaves -/
+def ObjAdded (h : Heap) (b : Blk) (lh : LhA) (ms : List (Bytes × Option Blk × Node)) (key : Bytes) (val : Node)
+    (constKey : Bool) (r : Node) (h' : Heap) : Prop :=
+  ∃ kb lh', r = .obj b lh' (ms ++ [(key, kb, val)]) ∧ lh'.self = lh.self ∧ lh'.count = lh.count + 1 ∧
+    lh'.count ≤ lh'.size ∧ (constKey = true ↔ kb = none) ∧ (∀ k, kb = some k → k.id = h.next + 1 ∧ k.size = key.length + 1) ∧
+    ((lh'.table = lh.table ∧ lh'.size = lh.size ∧ h'.live = h.live ++ kb.toList ∧ h'.next = h.next + kb.toList.length) ∨
+     (lh'.size = lh.size * 2 ∧ h'.live = h.live.filter (· != lh.table) ++ kb.toList ++ [lh'.table] ∧
+        h'.next = h.next + kb.toList.length + 2 ∧ lh'.table.id = h'.next ∧ lh.size ≤ 2 * lh.count + 1))
+
 end JsonC.Alloc
